@@ -7,6 +7,7 @@ from vf.runner import CH
 
 PARTITION = None
 MOD = 'harness.c01'
+K_EMPTY = ['trashcli.empty.main.main', 'EmptyCmd.run_cmd', 'DeleteAccordingDate.ok_to_delete', 'TrashDirReader.list_orphans']
 
 META = {
     'level': 'other',
@@ -255,6 +256,45 @@ def _case(kind, sp, mode, td, fb, top, alt, pre, verbose, home=0, nm=0):
         return oracle(results, arg, target, family, label)
 
 
+# ---------------------------------------------------------------- a days-limited trash-empty completing while trash-put runs
+def _with_empty(k, kind, days, tdk):
+    """trash-put is preempted after k system calls by a COMPLETE `trash-empty DAYS` on the same trash directory, then
+    finishes.  A days-limited purge keeps whatever it cannot date, so the put must still end fully trashed (or failed
+    and untouched).  (Plain trash-empty, which purges everything it sees, is outside this obligation.)"""
+    from vf import sched
+    from harness import common as K
+    with rt.untraced():
+        base = '/v/d' if tdk == 0 else '/h/w'
+        nodes = [W.d('/h'), W.d(base), W.f('/v/keep', 'KEEP', 0o644, 800)] + K.sentinels('/v/out')
+        nodes += K.entry_nodes(K.KINDS[kind], base + '/x', 1000)
+        if tdk == 2:
+            nodes += [W.d('/h/.local/share/Trash/files', 0o700), W.d('/h/.local/share/Trash/info', 0o700)]
+        m = W.build_model(W.W(mounts=K.MOUNTS, cwd=base, nodes=nodes))
+        before = m.snap('/')
+        e = scen.env()
+        d = [1, 30][days]
+        procs = [sched.Proc(C('put', ['--', 'x'], e, now='2020-06-15T12:00:00', cwd=base), 'put'),
+                 sched.Proc(C('empty', [str(d)], e, now='2020-06-15T12:00:00', cwd=base), 'empty')]
+        rt.begin(('put-vs-empty-days', k, d, K.KINDS[kind], base))
+        sched.run_schedule(m, procs, [(0, k), (1, None)])
+        if len(procs[0].log) >= 80:
+            return rt.fail('C01:bound-too-small', 'trash-put made %d system calls; preemption points only range over 0..79' % len(procs[0].log))
+        after = m.snap('/')
+        label = '%s:trash-empty %d completes after %s' % (K.KINDS[kind], d, 'some system call of trash-put')
+        if procs[1].result['exc']:
+            return rt.fail('C01:traceback:%s:concurrent-empty' % procs[1].result['exc'].split(':')[0], procs[1].result['exc'])
+        return oracle([before, procs[0].result, after], 'x', base + '/x', 'entry', label)
+
+
+def w_with_empty(k: int, kind: int, days: int, tdk: int) -> str:
+    """
+    pre: PARTITION is None or (days == PARTITION[0] and tdk == PARTITION[1])
+    pre: 0 <= k < 80 and 0 <= kind < 6 and 0 <= days < 2 and 0 <= tdk < 3
+    post: _ == ''
+    """
+    return _with_empty(rt.sel(k, 80), rt.sel(kind, 6), rt.sel(days, 2), rt.sel(tdk, 3))
+
+
 def w_spell(kind: int, sp: int, mode: int) -> str:
     """
     pre: PARTITION is None or kind == PARTITION
@@ -345,6 +385,10 @@ def obligations(tier):
                   bounds='6 kinds x 6 names containing % ( ) { } quotes newline x -v count 0..2 x 3 --trash-dir x 3 spellings'))
     obs.append(CH('W_home_directory_names', MOD, 'w_home', timeout=600, partitions=list(range(6)), engine='W', regime='selector', encodes=PUT_FUNCS, stubs=STUBS,
                   bounds='6 kinds x 4 $HOME values containing ( [ + backslash space $ * x 3 --trash-dir x 4 fallback switches x -v or not'))
+    obs.append(CH('W_days_limited_empty_completes_while_put_runs', MOD, 'w_with_empty', timeout=900, partitions=[(d, t) for d in range(2) for t in range(3)], engine='W', regime='selector',
+                  encodes=PUT_FUNCS + K_EMPTY, stubs=STUBS + ['replay-stepping scheduler (vf/sched.py)'],
+                  bounds='trash-put preempted after k system calls, k in 0..79 (runs are shorter: checked), by a complete trash-empty DAYS (1 | 30) on the same trash directory; 6 kinds x 3 trash-dir situations',
+                  outside='plain trash-empty (purges everything it sees, also an entry being made); more than one preemption'))
     if tier == 'thorough':
         obs.append(CH('W_spelling_mode_trashdir_fallback', MOD, 'w_full_opts', timeout=3000, partitions=list(range(6)), twin=False, engine='W',
                       regime='selector', encodes=PUT_FUNCS, stubs=STUBS,
